@@ -91,19 +91,21 @@ CHECKS["C16"] = dict(level="model_checking", design="5/C16, 4.6", text=_gram + "
     "the concatenation parses cleanly and its statement list is the concatenation of the individual lists.",
     note="cases whose premise fails are skipped and counted", technique="TLA+ reference grammar as generator + compositionality comparison on the real parser", engine="tlc+replay")
 _anz = ("Analyzer.tla is a machine spec of syntax_to_semantics over lazily generated abstract programs (declarations, assignments, gate calls with modifiers, "
-    "reset/barrier/delay/measure, if/else/while/for with block and single-statement bodies, gate and def definitions, return, pragma, annotations, include stdgates) with "
+    "reset/barrier/delay/measure, if/else/while/for with block and single-statement bodies, switch with case and default blocks, gate and def definitions, return, pragma, annotations, "
+    "include stdgates, literal statements of every class with optional trivia between number and unit, repeated statements) with "
     "names drawn from {a,b,h,U,pi} in every role; each action mirrors one arm of the analyser (order of look-ups, bindings, scope entries/exits, diagnostics). TLC explores it "
-    "exhaustively for short programs and by seeded simulation for long, deeply nested ones, checks the scope-pairing invariants, and prints every complete program with the "
-    "predicted symbols, diagnostics and graph skeleton; the harness renders each under 3 layouts, 2 renamings and all top-level prefixes and compares the real analysis. ")
+    "exhaustively for short programs, for two focus families (switch/case/default scoping; several user gates colliding with the standard library) and by seeded simulation for long, deeply nested ones, "
+    "checks the scope-pairing invariants and M |= R (AnalyzerReq: Scoping, UsageRules, AsgShape), and prints every complete program with the "
+    "predicted symbols, diagnostics and graph skeleton; the harness renders each under 4 layouts (one of them treats neighbouring statements differently), 2 renamings and all top-level prefixes and compares the real analysis. ")
 CHECKS["C03"] = dict(level="model_checking", design="5/C03, 4.8", text=_anz + "C03 verdict: no panic, scope depth 1 afterwards (hook), invariants ScopeDepthMatchesNesting/BackToGlobal hold in M.",
     note="programs of the modelled subset only; panics outside it are covered by the robustness corpus of C01 only at the parser level", technique="TLA+ machine spec explored by TLC (BFS + simulation), behaviours replayed into the real analyser", engine="tlc+replay")
-CHECKS["C06"] = dict(level="model_checking", design="5/C06, 4.8", text=_anz + "C06 verdict: the reduced graph skeleton (statement kinds, nesting, roles, order of operands/qubits/modifiers, operator and literal classes, iterables) equals the predicted one.",
+CHECKS["C06"] = dict(level="model_checking", design="5/C06, 4.8", text=_anz + "C06 verdict: the reduced graph skeleton (statement kinds, nesting, roles, order of operands/qubits, the SEQUENCE of gate modifiers, operator and literal classes, iterables, switch entries) equals the predicted one.",
     note="Cast wrappers and expression types are stripped from the skeleton (C08 covers typing)", technique="TLA+ machine spec as oracle, graph skeleton comparison", engine="tlc+replay")
 CHECKS["C07"] = dict(level="model_checking", design="5/C07, 4.8", text=_anz + "C07 verdict: every symbol reference in the graph (uses and declarations) is the predicted symbol, the symbol list has the predicted names, and the multiset of undefined/redeclaration diagnostics is the predicted one.",
     note="shadowing, reuse after scope exit, duplicates, built-ins, U and standard gate names collide through the shared name pool", technique="TLA+ machine spec of scoping explored by TLC, resolution map compared on the real analyser", engine="tlc+replay")
 CHECKS["C13"] = dict(level="model_checking", design="5/C13, 4.8", text=_anz + "C13 verdict: the multiset of usage-rule diagnostics (arity, non-gate, non-quantum operand, quantum operand of a binary operator, const mutation, scope placement, return) equals the predicted one.",
     note="ctrl-modified calls are outside the statement of C13", technique="TLA+ machine spec as oracle, diagnostic multiset comparison", engine="tlc+replay")
-CHECKS["C17"] = dict(level="exploration", design="5/C17, 4.11", text=_anz + "C17 verdict: symbols, diagnostics (with payload) and skeleton are identical across 3 layouts, equal up to the renaming for 2 renamings, a prefix for every top-level prefix, and identical when analysed twice.",
+CHECKS["C17"] = dict(level="exploration", design="5/C17, 4.11", text=_anz + "C17 verdict: symbols, diagnostics (with payload) and skeleton are identical across 4 layouts, equal up to the renaming for 2 renamings, a prefix for every top-level prefix, and identical when analysed twice (eight times for programs that include the standard library).",
     note="metamorphic relations evaluated by the harness on model-generated programs", technique="model-generated programs + metamorphic comparison on the real analyser", engine="tlc+replay")
 CHECKS["C18"] = dict(level="model_checking", design="5/C18, 4.10",
     text="IncludeSem.tla states textual inclusion with ordered path search; Includes.tla models the two phases of the code (parse_included_files building the vector of included files, "
